@@ -5,6 +5,7 @@ package corerad
 
 import (
 	"bytes"
+	"errors"
 	"fmt"
 	"log"
 	"net"
@@ -17,6 +18,7 @@ import (
 	"github.com/mdlayher/corerad/internal/plugin"
 	"github.com/mdlayher/corerad/internal/system"
 	"github.com/mdlayher/ndp"
+	"golang.org/x/net/ipv6"
 )
 
 func vfSecs(n int) time.Duration {
@@ -99,6 +101,14 @@ func (p *vfOptsPlugin) Apply(ra *ndp.RouterAdvertisement) error {
 	return nil
 }
 
+type vfNullConn struct{}
+
+func (vfNullConn) ReadFrom() (ndp.Message, *ipv6.ControlMessage, netip.Addr, error) {
+	return nil, nil, netip.Addr{}, errors.New("vf: not a reading connection")
+}
+func (vfNullConn) SetReadDeadline(time.Time) error                               { return nil }
+func (vfNullConn) WriteTo(ndp.Message, *ipv6.ControlMessage, netip.Addr) error { return nil }
+
 func vfRoundTrip(ra *ndp.RouterAdvertisement) (*ndp.RouterAdvertisement, error) {
 	b, err := ndp.MarshalMessage(ra)
 	if err != nil {
@@ -179,6 +189,14 @@ func TestVF_Verify(t *testing.T) {
 			ad := NewAdvertiser(cctx, cfg, nil, nil, func() bool { return false })
 			hooks := 0
 			ad.OnInconsistentRA = func(_, _ *ndp.RouterAdvertisement) { hooks++ }
+			if prev, ok := inp["prev"].(map[string]any); ok {
+				// a running advertiser has transmitted before: here while its dynamic content (wildcard expansion,
+				// count-down) was in an earlier state. The comparison is with what it would send now.
+				pl := cfg.Plugins[0].(*vfOptsPlugin)
+				pl.spec = vfList(prev, "opts")
+				_ = ad.send(vfNullConn{}, netip.IPv6LinkLocalAllNodes(), cfg)
+				pl.spec = vfList(ownSpec, "opts")
+			}
 			if _, err := ad.handle(theirs, netip.MustParseAddr("fe80::99")); err != nil {
 				panic("vf: " + err.Error())
 			}
